@@ -117,8 +117,8 @@ def check_api(case, ctx):
 def files_strategy(tier):
     @st.composite
     def s(draw):
-        spec = draw(gen.dataset(max_inputs=3, min_inputs=1, clim=False, flavor="det", core_max=3, extra_max=1,
-                                allow_drop=False, allow_obsless=False))
+        spec = draw(gen.dataset(max_inputs=3, min_inputs=1, clim=False, flavor=draw(st.sampled_from(["det", "det", "prob", "full"])),
+                                core_max=3, extra_max=1, allow_drop=False, allow_obsless=False, max_members=2))
         kind = draw(st.sampled_from(["text", "text", "netcdf"]))
         perms = []
         shuffles = []
@@ -126,11 +126,11 @@ def files_strategy(tier):
             perms.append([list(draw(st.permutations(range(len(d[k]))))) for k in ("ti", "li", "si")])
             nrows = len(d["ti"]) * len(d["li"]) * len(d["si"])
             shuffles.append({"rows": list(draw(st.permutations(range(nrows)))),
-                             "cols": list(draw(st.permutations(range(8))))})
+                             "cols": list(draw(st.permutations(range(24))))})
         order = list(draw(st.permutations(range(len(spec["inputs"])))))
         return {"spec": spec, "kind": kind, "perms": perms, "shuffles": shuffles, "order": order,
                 "axis": draw(st.sampled_from(gen.AXES_FOR_SCORES)),
-                "metric": draw(st.sampled_from(["mae", "bias", "obs", "fcst"]))}
+                "metric": draw(st.sampled_from(["mae", "bias", "obs", "fcst", "bs", "bs", "quantilescore", "pit"]))}
     return s()
 
 
@@ -166,7 +166,7 @@ def check_files(case, ctx):
                 if tag == "perm":
                     sh = case["shuffles"][i]
                     hdr, _ = mat.text_rows(d, sp)
-                    cols = [c for c in sh["cols"] if c < len(hdr)] + list(range(8, len(hdr)))
+                    cols = [c for c in sh["cols"] if c < len(hdr)]
                     cols = cols + [c for c in range(len(hdr)) if c not in cols]
                     mat.write_text(d, sp, p, row_order=sh["rows"], col_order=cols)
                 else:
@@ -176,7 +176,17 @@ def check_files(case, ctx):
                 mat.write_netcdf(d, sp, p)
             paths.append(p)
         variants[tag] = paths
-    tail = ["-m", case["metric"], "-x", case["axis"], "-type", "csv"]
+    metric = case["metric"]
+    margs = []
+    if metric in ("bs", "quantilescore", "pit"):
+        from .. import mrun
+        a = mrun.args_for(spec, metric)
+        if a is None:
+            metric = "mae"
+        elif a.get("thresholds") is not None:
+            margs = ["-q" if metric == "quantilescore" else "-r", ",".join(repr(float(t)) for t in a["thresholds"])]
+    ctx.label("files/metric=" + metric)
+    tail = ["-m", metric, "-x", case["axis"], "-type", "csv"] + margs
     r0 = drive.run(variants["orig"] + tail)
     r1 = drive.run(variants["perm"] + tail)
     r2 = drive.run([variants["orig"][i] for i in case["order"]] + tail)
@@ -211,9 +221,11 @@ def check_files(case, ctx):
     if len(rows0) != ds.n_slices(axis):
         ctx.fail("C02/cell-csv/rows", sub, "%d rows, model %d slices" % (len(rows0), ds.n_slices(axis)))
         return
+    if metric not in ("mae", "bias", "obs", "fcst"):
+        return          # probabilistic scores: judged by the permutation relations above (their definitions are C08's)
     for k, row in enumerate(rows0):
         for i in range(n_in):
-            m = case["metric"]
+            m = metric
             if m in ("mae", "bias"):
                 cs = ds.cases([("obs",), ("fcst",)], i, axis, k)
                 exp = _mean([abs(o - f) for o, f in cs]) if m == "mae" else _mean([f - o for o, f in cs])
